@@ -17,6 +17,7 @@ import (
 	"fmt"
 	"io"
 	"math/rand"
+	"net"
 	"runtime"
 	"strings"
 	"sync"
@@ -249,6 +250,12 @@ type initAdv struct {
 	// waiting for input (true) or has already left the SASL feature (false).
 	gate         func() bool
 	gateTimeouts int
+
+	// overlapping-session workload: the features list is sent without its end
+	// tag; when the library asks for more, hold() blocks until the other session
+	// has got as far as the scenario wants, then the end tag follows.
+	hold     func()
+	holdOpen bool
 }
 
 func (a *initAdv) delivered() []entry {
@@ -303,7 +310,12 @@ func (a *initAdv) feed(delta []byte, idle bool) (reply []byte, eof bool) {
 		if ev.Header {
 			a.headers++
 			if a.headers == 1 {
-				out.WriteString(serverHeader("s1") + featuresXML(a.sc.Advertised))
+				f := featuresXML(a.sc.Advertised)
+				if a.hold != nil {
+					f = strings.TrimSuffix(f, "</stream:features>")
+					a.holdOpen = true
+				}
+				out.WriteString(serverHeader("s1") + f)
 			} else {
 				restart = true
 			}
@@ -338,6 +350,14 @@ func (a *initAdv) feed(delta []byte, idle bool) (reply []byte, eof bool) {
 	}
 	if out.Len() > 0 {
 		return []byte(out.String()), false
+	}
+	if a.holdOpen && idle && !wantAction {
+		// the library has parsed <mechanisms/> and waits for the rest of the list
+		a.holdOpen = false
+		a.mu.Unlock()
+		a.hold()
+		a.mu.Lock()
+		return []byte("</stream:features>"), false
 	}
 	if !wantAction && !(idle && a.headers > 0) {
 		return nil, idle // lock-step: never leave the library waiting for nothing
@@ -638,6 +658,132 @@ func wrap(f xmpp.StreamFeature, res *negResult, delivered func() int) xmpp.Strea
 	return f
 }
 
+// wrapShared is wrap for a feature value used by several sessions at once: the
+// result slot is found through the session's transport.
+func wrapShared(f xmpp.StreamFeature, slots *sync.Map) xmpp.StreamFeature {
+	orig := f.Negotiate
+	f.Negotiate = func(ctx context.Context, s *xmpp.Session, data interface{}) (xmpp.SessionState, io.ReadWriter, error) {
+		mask, rw, err := orig(ctx, s, data)
+		if v, ok := slots.Load(s.Conn()); ok {
+			sl := v.(*overlapSlot)
+			sl.res.decided.Store(true)
+			sl.res.called++
+			sl.res.mask, sl.res.err = mask, err
+			sl.res.delivered = len(sl.adv.delivered())
+		}
+		return mask, rw, err
+	}
+	return f
+}
+
+type overlapSlot struct {
+	sc  *initScenario
+	adv *initAdv
+	res *negResult
+	s   *xmpp.Session
+	err error
+}
+
+type overlapSample struct {
+	Role string        `json:"role"`
+	A    *initScenario `json:"a"`
+	B    *initScenario `json:"b"`
+	Held bool          `json:"a_held_while_b_ran"`
+}
+
+// runOverlap negotiates two initiating sessions that share ONE SASL feature
+// value and are offered different mechanism lists.  Session A's peer sends its
+// <mechanisms/> but withholds </stream:features> until session B has been
+// offered its own list and has run its exchange; then A goes on.  Each session
+// is judged by the ordinary initiator oracle: in particular the mechanism in
+// its <auth/> must have been offered to THAT session.
+func runOverlap(c *core.Case, r *rand.Rand) {
+	c.Count("overlap_pairs", 1)
+	client := pickSubset(r, saslpeer.Names[:3], 2)
+	mk := func(advd []string) *initScenario {
+		sc := &initScenario{Role: "initiator", ClientMechs: client, Advertised: advd, Password: "pw1", ServerPass: "pw1", Iter: 4 + r.Intn(12)}
+		switch r.Intn(4) {
+		case 0:
+			n := 1 + r.Intn(4)
+			for i := 0; i < n; i++ {
+				sc.Script = append(sc.Script, initAlphabet[r.Intn(len(initAlphabet))])
+			}
+		default:
+			sc.Script = []string{"L", "L", "L"}
+		}
+		return sc
+	}
+	var la, lb []string
+	if r.Intn(2) == 0 {
+		// single, different offers out of the client's own list
+		p := r.Perm(len(client))
+		la, lb = []string{client[p[0]]}, []string{client[p[1]]}
+	} else {
+		la, lb = pickSubset(r, saslpeer.Names[:3], 1), pickSubset(r, saslpeer.Names[:3], 1)
+	}
+	if strings.Join(la, ",") != strings.Join(lb, ",") {
+		c.Count("overlap_pairs_with_different_offers", 1)
+	}
+	a := &overlapSlot{sc: mk(la), res: &negResult{}}
+	b := &overlapSlot{sc: mk(lb), res: &negResult{}}
+	smp := &overlapSample{Role: "initiator-overlap", A: a.sc, B: b.sc}
+	c.Sample(smp)
+	a.adv = &initAdv{sc: a.sc, r: r}
+	b.adv = &initAdv{sc: b.sc, r: r}
+	var mechs []sasl.Mechanism
+	for _, n := range client {
+		mechs = append(mechs, saslpeer.Mechanisms[n])
+	}
+	slots := &sync.Map{}
+	feat := wrapShared(xmpp.SASL("", "pw1", mechs...), slots)
+	neg := negotiatorFor(feat) // one Negotiator value for both sessions as well
+	origin := jid.MustParse(user + "@" + domain)
+	location := jid.MustParse(domain)
+
+	held := make(chan struct{})
+	release := make(chan struct{})
+	a.adv.hold = func() {
+		close(held)
+		<-release
+	}
+	connA := bufconn.NewScripted(func(w []byte) ([]byte, bool) { return a.adv.feed(w, true) })
+	connB := bufconn.NewScripted(func(w []byte) ([]byte, bool) { return b.adv.feed(w, true) })
+	slots.Store(net.Conn(connA), a)
+	slots.Store(net.Conn(connB), b)
+	doneA := make(chan struct{})
+	go func() {
+		defer close(doneA)
+		c.Guard("NewSession(A)", func() {
+			a.s, a.err = xmpp.NewSession(context.Background(), location, origin, connA, xmpp.Secure, neg)
+		})
+	}()
+	select {
+	case <-held:
+		smp.Held = true
+		c.Count("overlap_a_held_after_parse", 1)
+	case <-doneA:
+	}
+	c.Guard("NewSession(B)", func() {
+		b.s, b.err = xmpp.NewSession(context.Background(), location, origin, connB, xmpp.Secure, neg)
+	})
+	if smp.Held && len(b.adv.authMechs) > 0 {
+		c.Count("overlap_b_sent_auth_while_a_held", 1)
+	}
+	close(release)
+	<-doneA
+	connA.Close()
+	connB.Close()
+	for _, sl := range []*overlapSlot{a, b} {
+		c.Count("init_cases", 1)
+		for _, e := range sl.adv.delivered() {
+			c.Count("init_action_"+e.Kind, 1)
+		}
+		sl.sc.Log = sl.adv.delivered()
+		judgeInit(c, sl.sc, sl.adv, sl.res, sl.s, sl.err)
+	}
+	c.Sample(smp)
+}
+
 func negotiatorFor(f xmpp.StreamFeature) xmpp.Negotiator {
 	return xmpp.NewNegotiator(func(*xmpp.Session, *xmpp.StreamConfig) xmpp.StreamConfig {
 		return xmpp.StreamConfig{Features: []xmpp.StreamFeature{f}}
@@ -660,7 +806,6 @@ func runInitiator(c *core.Case, sc *initScenario) {
 	var s *xmpp.Session
 	var err error
 	cancelFired, cancelAtDelivered := false, 0
-	lockstep := !sc.TLS
 	if !sc.TLS {
 		conn := bufconn.NewScripted(func(w []byte) ([]byte, bool) { return adv.feed(w, true) })
 		if sc.Chunk > 0 {
@@ -808,6 +953,12 @@ func runInitiator(c *core.Case, sc *initScenario) {
 			}
 		}
 	}
+	judgeInit(c, sc, adv, res, s, err)
+}
+
+// judgeInit applies the initiator oracles to one finished session.
+func judgeInit(c *core.Case, sc *initScenario, adv *initAdv, res *negResult, s *xmpp.Session, err error) {
+	log := adv.delivered()
 	mech := ""
 	if len(adv.authMechs) > 0 {
 		mech = adv.authMechs[len(adv.authMechs)-1]
@@ -838,11 +989,10 @@ func runInitiator(c *core.Case, sc *initScenario) {
 	steps := saslpeer.Steps(mech)
 	var ok bool
 	var reason string
+	lockstep := true
 	if adv.gateTimeouts > 0 {
 		c.Count("init_tls_gate_timeouts", adv.gateTimeouts)
 		lockstep = false
-	} else {
-		lockstep = true
 	}
 	if lockstep && authnByNegotiate {
 		n := res.delivered
@@ -1420,6 +1570,10 @@ func run(c *core.Case) {
 		}
 	}
 	if c.Index%2 == 0 {
+		if c.Rand.Intn(8) == 0 {
+			runOverlap(c, c.Rand)
+			return
+		}
 		runInitiator(c, genInit(c.Rand))
 	} else {
 		runReceiver(c, genRecv(c.Rand))
@@ -1434,6 +1588,7 @@ func Prop() *core.Prop {
 		"init_channel_binding_matched", "recv_accept_PLAIN", "recv_perm_true", "recv_perm_false",
 		"init_cancel_cases_no_deadline_transport", "init_cancel_cases_deadline_transport", "init_cancel_fired",
 		"init_cancel_fired_multi_step_mechanism",
+		"overlap_pairs_with_different_offers", "overlap_a_held_after_parse", "overlap_b_sent_auth_while_a_held",
 	}
 	for _, k := range initAlphabet {
 		req = append(req, "init_action_"+k)
